@@ -59,6 +59,15 @@ def camel(n):
     return n[0].lower() + n[1:]
 
 
+def c_enum_values(body):
+    """enumerator values with C / C++ semantics: an enumerator without initializer continues from the previous one"""
+    out, prev = {}, -1
+    for name, val in re.findall(r"(\w+)\s*(?:=\s*(-?\d+))?\s*,", body + ","):
+        prev = int(val) if val not in (None, "") else prev + 1
+        out[name] = prev
+    return out
+
+
 def check(ctx, replay=None):
     build_harness()
     phase = standard_proof_phase(ctx, PROP, ["theories/Properties/C11.v"])
@@ -200,7 +209,7 @@ def check(ctx, replay=None):
             record("Kotlin", e, vals, back)
         if "nanobind" in outs:
             hdr = open(os.path.join(outs["nanobind"], "include", f"En{e}.d.hpp")).read()
-            en = dict((a, int(b)) for a, b in re.findall(r"(\w+) = (-?\d+),", re.search(r"enum Value \{(.*?)\};", hdr, re.S).group(1)))
+            en = c_enum_values(re.search(r"enum Value \{(.*?)\};", hdr, re.S).group(1))
             cpp = "".join(open(os.path.join(outs["nanobind"], f)).read() for f in os.listdir(outs["nanobind"]) if f.endswith(".cpp"))
             bound = re.findall(r'\.value\("(\w+)", En%d::(\w+)\)' % e, cpp)
             if [b[0] for b in bound] != NAMES[:n] or any(a != b for a, b in bound):
